@@ -431,7 +431,7 @@ def run(ctx):
                    (d['key'] == 'dsa' and d['hl'] == 32 and d['tag'] in ('honest', 'r1-s0', 's=q'))]
             dcs_eval = sel[:16]
         else:
-            dcs_eval = dcs
+            dcs_eval = [d for d in dcs if d['hl'] in (20, 32)]      # ~7 s CPU per case: two digest lengths suffice
         dl = [dsa_lit(d) for d in dcs_eval]
         badd, errs = vlib.coq_bad_indices('C05d', ['Gen.C05_DsaVerify', 'Model.C05_SigGuard'],
                                           '(list (Z * Z * Z) * list (Z * Z * Z * Z) * (Z * Z * Z * Z * Z * Z * Z) * bool)',
